@@ -7,7 +7,7 @@ import sys
 sys.path.insert(0, os.path.dirname(os.path.abspath(__file__)))
 import astlib
 
-OUT = '/verif/coq/generated/EvalIRCurrent.v'
+OUT = os.path.join(os.environ.get('VERIF_ROOT') or os.path.dirname(os.path.dirname(os.path.abspath(__file__))), 'coq', 'generated', 'EvalIRCurrent.v')
 QUEUE, FLAG, MUTEX = 'm_deferredSlotInvocations', 'm_isEvaluating', 'm_slotInvocationMutex'
 
 
